@@ -3,7 +3,7 @@
 set -e
 cd "$(dirname "$0")/.."
 export GOFLAGS=-mod=mod GOPROXY=off GOSUMDB=off GOTOOLCHAIN=local CGO_ENABLED=0
-(cd lean && lake build 2>&1 | tail -3)
+(cd lean && { lake build > .lake/build.log 2>&1; rc=$?; tail -3 .lake/build.log; [ $rc -eq 0 ] || { echo "setup: lake build FAILED (lean/.lake/build.log)"; exit $rc; }; })
 cp /repo/go.sum harness/go.sum
 mkdir -p harness/bin harness/overlay
 python3 - <<'PY'
